@@ -845,6 +845,12 @@ def order_preserved(prog: Program) -> RuleResult:
 
 
 # methods that edit a tree (ete3's own and the model's): none may run on a tree between parsing and storing it
+def _root_of(expr: ast.AST) -> Optional[str]:
+    while isinstance(expr, (ast.Attribute, ast.Subscript)):
+        expr = expr.value
+    return expr.id if isinstance(expr, ast.Name) else None
+
+
 TREE_EDITORS = {
     "add_feature", "add_features", "del_feature", "swap_children", "ladderize", "sort_descendants", "label_internal",
     "resolve_polytomy", "unroot", "set_outgroup", "prune", "delete", "detach", "remove_child", "add_child", "standardize",
@@ -985,7 +991,14 @@ def field_source(prog: Program) -> RuleResult:
                 if isinstance(c, ast.Call) and isinstance(c.func, ast.Attribute) and c.func.attr in TREE_EDITORS
             ] + [
                 st for body in bodies for st in walk_no_nested(body)
-                if isinstance(st, ast.Assign) and any(isinstance(t, ast.Attribute) and t.attr in ("name", "dist", "support") for t in st.targets)
+                if isinstance(st, (ast.Assign, ast.AugAssign, ast.AnnAssign)) and any(
+                    # any attribute of a node is part of what was read (`color` and every other NHX feature included)
+                    isinstance(t, ast.Attribute) and _root_of(t) not in ("self", "cls")
+                    for t in (st.targets if isinstance(st, ast.Assign) else [st.target])
+                )
+            ] + [
+                c for body in bodies for c in walk_no_nested(body)
+                if isinstance(c, ast.Call) and isinstance(c.func, ast.Name) and c.func.id in ("setattr", "delattr")
             ]
             if deco:
                 res.fail(construct, f"`{short(deco[0], 70)}` alters the tree that was just parsed: writing it again does not reproduce the Newick string that was read", mod, deco[0])
@@ -1778,12 +1791,30 @@ def cli_cost_source(prog: Program) -> RuleResult:
     prints = [
         c
         for c in calls_in(ca, nested=False)
-        if dotted(c.func) == "print" and any(isinstance(a, ast.Constant) and isinstance(a.value, str) and "cost" in a.value.lower() for a in c.args)
+        if dotted(c.func) == "print" and any(
+            (isinstance(a, ast.Constant) and isinstance(a.value, str) and "cost" in a.value.lower())
+            or (isinstance(a, ast.JoinedStr) and any(isinstance(v, ast.Constant) and isinstance(v.value, str) and "cost" in v.value.lower() for v in a.values))
+            for a in c.args
+        )
     ]
     if len(prints) != 1:
         raise AnalysisError("call_algorithm: the 'Minimum cost' print was not found")
     pr = prints[0]
     cost_arg = next((a for a in pr.args if not isinstance(a, ast.Constant)), None)
+    if isinstance(cost_arg, ast.JoinedStr):
+        # the message written as one f-string: the interpolated value is what is printed
+        fields = [v for v in cost_arg.values if isinstance(v, ast.FormattedValue)]
+        if len(fields) != 1:
+            raise AnalysisError("call_algorithm: the 'Minimum cost' message interpolates more than one value")
+        if fields[0].format_spec is not None or fields[0].conversion != -1:
+            res.fail(
+                f"{CLI}:call_algorithm/printed-as-is",
+                f"the minimum is printed through `{short(fields[0], 60)}`: a format specification keeps a fixed number of digits, so the "
+                "printed number is not the cost of the solutions that are written",
+                mod,
+                pr,
+            )
+        cost_arg = fields[0].value
     rets = [n for n in walk_no_nested(ca) if isinstance(n, ast.Return) and isinstance(n.value, ast.Name)]
     ret_names = {r.value.id for r in rets}
     ok = (
